@@ -238,7 +238,9 @@ def gen_outcome(rng, sv, m):
     if mm["throws"]:
         choices += ["declared"] * 3
     if not m["oneway"] and mm["ret"] is not None and L.head_kind(sv.prog, mm["ret"]) == "struct":
-        choices += ["unwritable"] * 5
+        rr = L.resolve(sv.prog, mm["ret"])
+        if L.lookup(sv.prog, rr[1], rr[2])[1]["kind"] == "union":
+            choices += ["unwritable"] * 6
     k = rng.choice(choices)
     spec = {"method": m["go"], "result": m["result_key"]}
     extra = []
